@@ -17,8 +17,7 @@ elab "#audit_module " m:ident : command => do
     let names := env.header.moduleData[idx.toNat]!.constNames
     for n in names do
       if n.isInternal then continue
-      -- only the theorems stated in the property's own namespace; skip equation lemmas
-      if !(modName.isPrefixOf n) then continue
+      -- every theorem constant of the module; bin/check keeps those declared in the source
       let last := n.components.getLast?.map (·.toString) |>.getD ""
       if last.startsWith "match_" || last.startsWith "proof_" then continue
       match env.find? n with
